@@ -286,6 +286,8 @@ def run_property(prop, tier, seed):
             "samples": samples,
             "rules": sorted({r["rule"] for r in ctx.results}),
             "bodies_in_fact_base": len(facts.all_fns),
+            "bodies_evaluated_by_the_interpreter": len(__import__("absint").EVALUATED_BODIES),
+            "evaluated_bodies": sorted(__import__("absint").EVALUATED_BODIES),
             "counters": ctx.counters,
             "floors": ctx.floors,
             "tree_hash": tree,
